@@ -46,6 +46,10 @@ type refNode struct {
 // A link to a directory that the LAST segment matches is a directory: never listed (opt stays empty; kept for
 // the callers' signature).
 func refGlob(root *refNode, segs []string, prefix string, opt map[string]bool) []string {
+	// a doubled separator is one separator (an empty segment that is not the last one is no segment)
+	for len(segs) > 1 && segs[0] == "" {
+		segs = segs[1:]
+	}
 	var out []string
 	if len(segs) == 1 {
 		for _, k := range root.kids {
@@ -166,9 +170,10 @@ func C20(r *drv.Run) {
 		ntrees, npat = 400, 150
 		plen = 5
 	}
-	r.Rule = fmt.Sprintf("exhaustive: every pattern of length <= %d over {a,b,.,*} with at most 3 stars x a directory holding every name of length <= 4 over {a,b,.} (118 files) and 3 sub-directories with matching names; generated trees of depth <= 3 (names such as a.txt.txt, abxb, .a, and names containing ? [ ] + { } blank backslash, which only '*' may treat specially) with relative and absolute multi-segment patterns, the trees also holding symbolic links to sibling directories and files and regular files with unusual permission bits (000, 200, 111). The selection is also observed end to end: the built command line tool run inside some of the trees with `find top 1 any` (every file holds one byte), alone, with -profile naming a file OUTSIDE the tree that is called like a file inside it, and with -replace-mode plus a JSON output file; the set of file names in its JSON output must be the same set. Oracle: reference glob (segment-wise, backtracking '*') over the harness's own record of the tree; result sets compared after filepath.Clean; duplicates and listed directories are violations. Non-trivial = pattern containing '*' that selects a non-empty proper subset; distinct by (tree, pattern).", plen)
+	r.Rule = fmt.Sprintf("exhaustive: every pattern of length <= %d over {a,b,.,*} with at most 3 stars x a directory holding every name of length <= 4 over {a,b,.} (118 files) and 3 sub-directories with matching names; generated trees of depth <= 3 (names such as a.txt.txt, abxb, .a, and names containing ? [ ] + { } blank backslash, which only '*' may treat specially) with relative and absolute multi-segment patterns, the trees also holding symbolic links to sibling directories and files and regular files with unusual permission bits (000, 200, 111). The selection is also observed end to end: the built command line tool run inside some of the trees with `find top 1 any` (every file holds one byte), alone, with -profile naming a file OUTSIDE the tree that is called like a file inside it, with -replace-mode plus a JSON output file, and with an absolute pattern into a sibling directory whose name begins like the working directory's; the set of file names in its JSON output must be the same set. Oracle: reference glob (segment-wise, backtracking '*') over the harness's own record of the tree; result sets compared after filepath.Clean; duplicates and listed directories are violations. Non-trivial = pattern containing '*' that selects a non-empty proper subset; distinct by (tree, pattern).", plen)
 	r.Assumptions = []string{
-		"excluded as the property says: directory segments made only of stars, '.' and '..' segments, empty segments",
+		"excluded as the property says: directory segments made only of stars, '.' and '..' segments",
+		"a doubled separator counts as one (as in any path); a trailing separator leaves an empty LAST segment, which matches only the empty name, i.e. no file",
 		"symbolic links in the trees point to an existing sibling (directory or regular file): a linked directory is a directory (traversed by directory segments, never listed as a file), a linked regular file is a regular file; dangling links (never to be listed) are present in some trees; no special files",
 	}
 	// flat exhaustive directory
@@ -295,6 +300,16 @@ func C20(r *drv.Run) {
 				continue
 			}
 			p := strings.Join(segs, "/")
+			switch rng.Intn(12) {
+			case 0:
+				// a trailing separator leaves an empty last segment, which no file name matches: nothing is selected
+				p += "/"
+			case 1:
+				// a doubled separator in the middle is one separator
+				if nseg > 1 {
+					p = strings.Replace(p, "/", "//", 1)
+				}
+			}
 			if rng.Chance(1, 4) {
 				p = base + "/" + p
 			}
@@ -330,6 +345,7 @@ func C20(r *drv.Run) {
 			pat   string
 			extra []string
 			label string
+			cwd   string // "" = the tree's own directory
 		}
 		var jobs []job
 		for ti := 0; ti < len(tcs) && ti < ncli; ti++ {
@@ -347,9 +363,24 @@ func C20(r *drv.Run) {
 				if strings.HasPrefix(p, "/") {
 					continue
 				}
-				jobs = append(jobs, job{tc, p, nil, "plain"},
-					job{tc, p, []string{"-profile", filepath.Join(profDir, profName)}, "with -profile"},
-					job{tc, p, []string{"-replace-mode", "NOTHING", "-formatted-json-file", filepath.Join(profDir, "out.json")}, "with -replace-mode and a JSON file"})
+				jobs = append(jobs, job{tc, p, nil, "plain", ""},
+					job{tc, p, []string{"-profile", filepath.Join(profDir, profName)}, "with -profile", ""},
+					job{tc, p, []string{"-replace-mode", "NOTHING", "-formatted-json-file", filepath.Join(profDir, "out.json")}, "with -replace-mode and a JSON file", ""})
+			}
+		}
+		// an absolute pattern into ANOTHER tree whose directory name merely begins like the working directory's
+		// (cwd .../t1, pattern .../t10/..): string prefixes are not path prefixes
+		for ti := 1; ti < len(tcs) && ti < ncli; ti++ {
+			for tj := range tcs {
+				if tj != ti && strings.HasPrefix(tcs[tj].base, tcs[ti].base) {
+					other := tcs[tj]
+					for _, p := range append([]string{"*"}, other.pats[:min(len(other.pats), 3)]...) {
+						if !strings.HasPrefix(p, "/") {
+							jobs = append(jobs, job{other, other.base + "/" + p, nil, "absolute pattern into a sibling directory", tcs[ti].base})
+						}
+					}
+					break
+				}
 			}
 		}
 		var wg sync.WaitGroup
@@ -361,10 +392,16 @@ func C20(r *drv.Run) {
 				defer wg.Done()
 				defer func() { <-sem }()
 				args := append([]string{"-com", "find top 1 any", "-files", jb.pat, "-json"}, jb.extra...)
-				code, stdout, stderr := runCLI(r.CLIBin, jb.tc.base, args)
+				cwd := jb.tc.base
+				rel := jb.pat
+				if jb.cwd != "" {
+					cwd = jb.cwd
+					rel = strings.TrimPrefix(jb.pat, jb.tc.base+"/")
+				}
+				code, stdout, stderr := runCLI(r.CLIBin, cwd, args)
 				r.Eval(1)
 				opt := map[string]bool{}
-				want := refGlob(jb.tc.tree, strings.Split(jb.pat, "/"), jb.tc.base, opt)
+				want := refGlob(jb.tc.tree, strings.Split(rel, "/"), jb.tc.base, opt)
 				wantC, _ := cleanSorted(want)
 				viol := func(sig string, d map[string]any) {
 					d["pattern"], d["flags"], d["args"] = jb.pat, jb.label, fmt.Sprint(args)
@@ -404,6 +441,9 @@ func C20(r *drv.Run) {
 					return
 				}
 				r.Count("cli_selections_verified", 1)
+				if jb.cwd != "" && len(wantC) > 0 {
+					r.Count("cli_selections_verified_in_a_sibling_directory", 1)
+				}
 				if len(jb.extra) > 0 && len(wantC) > 0 {
 					r.Count("cli_selections_verified_next_to_other_flags", 1)
 				}
